@@ -129,7 +129,7 @@ pub fn shapes_font(long: bool, style: u8) -> Tables {
     add(&mut g, &[(XY, 1, 100, -100, &[])], &[]); // 3 byte xy
     add(&mut g, &[(XY | WORDS, 1, 300, -200, &[])], &[]); // 4 word xy
     add(&mut g, &[(0, 1, 1, 2, &[])], &[]); // 5 byte point matching
-    add(&mut g, &[(XY, 1, 0, 0, &[]), (WORDS, 2, 300, 1, &[])], &[]); // 6 word point matching (child point 300 does not exist: never resolved here)
+    add(&mut g, &[(XY, 1, 0, 0, &[]), (WORDS, 2, 2, 1, &[])], &[]); // 6 word point matching (parent point 2, child point 1)
     add(&mut g, &[(XY | SCALE, 1, 10, 20, &[8192])], &[]); // 7 scale
     add(&mut g, &[(XY | XYSCALE | ROUND, 2, -128, 127, &[8192, 12288])], &[]); // 8 x/y scale, extreme byte offsets
     add(&mut g, &[(XY | WORDS | TWOBYTWO, 2, -129, 128, &[11585, 11585, -11585, 11585])], &[]); // 9 2x2, smallest word offsets
